@@ -177,3 +177,264 @@ Proof.
   rewrite fnset_new_loop_pure by (apply valid_set_list; lia).
   rewrite new_pure_idem by exact Hs. reflexivity.
 Qed.
+
+(* ------------------------------------------------------------------ locators *)
+Definition wf_loc (l : locator) : Prop := in_i32 (l_kind l) /\ in_u32 (l_port l) /\ length (l_addr l) = 16%nat.
+
+Lemma rd_ptick : forall n, rd (ptick n) [] tt.
+Proof. intros n r; reflexivity. Qed.
+
+Lemma rd_locator : forall e l, wf_loc l -> rd (read_locator e) (enc_locator e l) l.
+Proof.
+  intros e [k p a] (Hk & Hp & Ha); cbn [l_kind l_port l_addr] in *. unfold read_locator, enc_locator; cbn [l_kind l_port l_addr].
+  eapply rd_bind; [apply rd_i32; exact Hk|].
+  eapply rd_bind; [apply rd_u32_in; exact Hp|].
+  apply rd_bind_ret with (g := mk_loc k p). apply rd_read_n; exact Ha.
+Qed.
+Lemma rd_locs : forall e ls, Forall wf_loc ls ->
+  rd (read_locs e (length ls)) (flat_map (enc_locator e) ls) ls.
+Proof.
+  intros e ls H; induction H as [|l t Hl Ht IH]; cbn [length read_locs flat_map]; [apply rd_pret|].
+  eapply rd_bind; [apply rd_locator; exact Hl|].
+  change (flat_map (enc_locator e) t) with ([] ++ flat_map (enc_locator e) t).
+  eapply rd_bind; [apply rd_ptick|].
+  apply rd_bind_ret with (g := cons l). exact IH.
+Qed.
+Lemma len_enc_locator : forall e l, wf_loc l -> len (enc_locator e l) = 24.
+Proof.
+  intros e l (_ & _ & Ha). unfold enc_locator. rewrite !len_app, !len_enc_int. unfold len. rewrite Ha. reflexivity.
+Qed.
+Lemma len_enc_locs : forall e ls, Forall wf_loc ls -> len (flat_map (enc_locator e) ls) = 24 * len ls.
+Proof.
+  intros e ls H; induction H as [|l t Hl Ht IH]; cbn [flat_map]; [reflexivity|].
+  rewrite len_app, len_enc_locator, IH, len_cons by exact Hl. lia.
+Qed.
+Lemma rd_locator_list : forall e ls, Forall wf_loc ls -> len ls <= u32_max ->
+  rd (read_locator_list e) (enc_locator_list e ls) ls.
+Proof.
+  intros e ls H Hn r. unfold read_locator_list, enc_locator_list. rewrite <- app_assoc.
+  assert (Hu : in_u32 (len ls)) by (unfold in_u32, len in *; lia).
+  rewrite (pbind_ok _ _ (read_u32 e) _ _ (len ls) (flat_map (enc_locator e) ls ++ r)) by (apply rd_u32_in; exact Hu).
+  replace (Z.to_nat (Z.min (len ls) (len (flat_map (enc_locator e) ls ++ r) / 24 + 1))) with (length ls).
+  - apply rd_locs; exact H.
+  - rewrite len_app, len_enc_locs by exact H. unfold len. lia.
+Qed.
+
+(* ---------------------------------------------------------------- parameters *)
+Lemma pad_len_spec : forall n, 0 <= n -> 0 <= pad_len n <= 3 /\ (n + pad_len n) mod 4 = 0.
+Proof. intros; unfold pad_len; lia. Qed.
+
+Lemma read_param_body : forall e i2 l2 body r,
+  length i2 = 2%nat -> length l2 = 2%nat ->
+  to_signed 16 (dec_int e i2) <> PID_SENTINEL ->
+  dec_int e l2 = len body -> len body mod 4 = 0 ->
+  fst (read_param e (i2 ++ l2 ++ body ++ r)) = Ok (mk_param (to_signed 16 (dec_int e i2)) body, r).
+Proof.
+  intros e i2 l2 body r H1 H2 Hs Hl Hm. unfold read_param. rewrite !shorter_spec.
+  destruct (Z.ltb_spec (len (i2 ++ l2 ++ body ++ r)) 4) as [L|L].
+  { rewrite !len_app in L. unfold len in L. lia. }
+  rewrite (firstn_app_exact _ i2) by exact H1.
+  rewrite (skipn_app_exact _ i2) by exact H1.
+  rewrite (firstn_app_exact _ l2) by exact H2.
+  replace (skipn 4 (i2 ++ l2 ++ body ++ r)) with (body ++ r).
+  2:{ change 4%nat with (2 + 2)%nat. rewrite <- skipn_skipn, (skipn_app_exact _ i2), (skipn_app_exact _ l2); auto. }
+  rewrite Hl, Hm. cbn [Z.eqb negb andb].
+  destruct (Z.eqb_spec (to_signed 16 (dec_int e i2)) PID_SENTINEL) as [E|E]; [contradiction|]. cbn [negb andb].
+  destruct (Z.ltb_spec (len (body ++ r)) (len body)) as [L2|L2].
+  { rewrite len_app in L2. unfold len in L2. lia. }
+  unfold len at 1 2. rewrite Nat2Z.id.
+  rewrite firstn_app_exact, skipn_app_exact by reflexivity. reflexivity.
+Qed.
+
+Definition wf_param (p : param) : Prop :=
+  -32768 <= p_id p <= 32767 /\ p_id p <> PID_SENTINEL /\ len (p_val p) + pad_len (len (p_val p)) <= 65535.
+
+Lemma rd_param : forall e p, wf_param p -> rd (read_param e) (enc_param e p) (pad_param p).
+Proof.
+  intros e [id val] (Hi & Hs & Hl) r; cbn [p_id p_val] in *. unfold enc_param, pad_param; cbn [p_id p_val].
+  set (pad := pad_len (len val)) in *.
+  destruct (pad_len_spec (len val) (len_nonneg _ val)) as [Hp Hm]. fold pad in Hp, Hm.
+  rewrite <- !app_assoc.
+  assert (Eid : to_signed 16 (dec_int e (enc_int e 2 id)) = id).
+  { rewrite dec_enc_int. change (256 ^ Z.of_nat 2) with 65536. apply i16_roundtrip; exact Hi. }
+  replace (val ++ repeat 0 (Z.to_nat pad) ++ r) with ((val ++ repeat 0 (Z.to_nat pad)) ++ r) by (rewrite <- app_assoc; reflexivity).
+  rewrite read_param_body.
+  - rewrite Eid. reflexivity.
+  - apply enc_int_length.
+  - apply enc_int_length.
+  - rewrite Eid; exact Hs.
+  - rewrite dec_enc_int, len_app, len_repeat. change (256 ^ Z.of_nat 2) with 65536.
+    pose proof (len_nonneg _ val). lia.
+  - rewrite len_app, len_repeat. replace (Z.of_nat (Z.to_nat pad)) with pad by lia. exact Hm.
+Qed.
+
+Lemma read_param_sentinel : forall e r,
+  fst (read_param e (enc_int e 2 PID_SENTINEL ++ [0; 0] ++ r)) = Ok (mk_param PID_SENTINEL [], r).
+Proof.
+  intros e r. unfold read_param. rewrite shorter_spec.
+  destruct (Z.ltb_spec (len (enc_int e 2 PID_SENTINEL ++ [0; 0] ++ r)) 4) as [L|L].
+  { rewrite !len_app, len_enc_int in L. unfold len in L. cbn [length] in L. lia. }
+  rewrite (firstn_app_exact _ (enc_int e 2 PID_SENTINEL)) by apply enc_int_length.
+  rewrite dec_enc_int. change (to_signed 16 (PID_SENTINEL mod 256 ^ Z.of_nat 2)) with 1.
+  change (1 =? PID_SENTINEL) with true. cbn [negb andb].
+  replace (skipn 4 (enc_int e 2 PID_SENTINEL ++ [0; 0] ++ r)) with r; [reflexivity|].
+  change 4%nat with (2 + 2)%nat. rewrite <- skipn_skipn, (skipn_app_exact _ (enc_int e 2 PID_SENTINEL)) by apply enc_int_length.
+  reflexivity.
+Qed.
+
+Lemma rd_params : forall e ps fuel, Forall wf_param ps -> (length ps < fuel)%nat ->
+  rd (read_params e fuel) (enc_param_list e ps) (map pad_param ps).
+Proof.
+  intros e ps; induction ps as [|p t IH]; intros fuel H Hf.
+  - destruct fuel; [lia|]. intros r. cbn [read_params enc_param_list flat_map map app].
+    rewrite (pbind_ok _ _ (read_param e) _ _ (mk_param PID_SENTINEL []) r).
+    + reflexivity.
+    + rewrite <- app_assoc. apply read_param_sentinel.
+  - destruct fuel; [cbn [length] in Hf; lia|]. cbn [length] in Hf.
+    pose proof (Forall_inv H) as Hp. pose proof (Forall_inv_tail H) as Ht.
+    unfold enc_param_list. cbn [read_params flat_map map]. rewrite <- app_assoc.
+    eapply rd_bind; [apply rd_param; exact Hp|].
+    destruct Hp as (_ & Hs & _).
+    destruct (Z.eqb_spec (p_id (pad_param p)) PID_SENTINEL) as [E|E]; [cbn [pad_param p_id] in E; contradiction|].
+    change (flat_map (enc_param e) t ++ enc_int e 2 PID_SENTINEL ++ [0; 0]) with ([] ++ enc_param_list e t).
+    eapply rd_bind; [apply rd_ptick|].
+    apply rd_bind_ret with (g := cons (pad_param p)). apply IH; [exact Ht|lia].
+Qed.
+
+Lemma len_enc_param_ge : forall e p, 4 <= len (enc_param e p).
+Proof.
+  intros; unfold enc_param. rewrite !len_app, !len_enc_int. pose proof (len_nonneg _ (p_val p)).
+  pose proof (len_nonneg _ (repeat 0 (Z.to_nat (pad_len (len (p_val p)))))). lia.
+Qed.
+Lemma len_enc_params_ge : forall e ps, 4 * len ps <= len (flat_map (enc_param e) ps).
+Proof.
+  intros e ps; induction ps as [|p t IH]; cbn [flat_map]; [unfold len; cbn; lia|].
+  rewrite len_app, len_cons. pose proof (len_enc_param_ge e p). lia.
+Qed.
+Lemma rd_param_list : forall e ps, Forall wf_param ps -> len (enc_param_list e ps) <= 65535 ->
+  rd (read_param_list e) (enc_param_list e ps) (map pad_param ps).
+Proof.
+  intros e ps H Hl. unfold read_param_list. apply rd_params; [exact H|].
+  unfold enc_param_list in Hl. rewrite len_app in Hl. pose proof (len_enc_params_ge e ps).
+  pose proof (len_nonneg _ (enc_int e 2 PID_SENTINEL ++ [0; 0])).
+  unfold MAX_PARAMETERS. unfold len in *. lia.
+Qed.
+
+(* ---------------------------------------------------------------- submessages *)
+Definition in_u16 (z : Z) : Prop := 0 <= z <= 65535.
+
+Definition wfp (p : psub) : Prop :=
+  match p with
+  | AckNack _ rid wid st c => length rid = 4%nat /\ length wid = 4%nat /\ wf_snset st /\ in_i32 c
+  | Data _ _ _ _ rid wid sn qos _ => length rid = 4%nat /\ length wid = 4%nat /\ in_i64 sn /\ Forall wf_param qos
+  | DataFrag _ _ _ rid wid sn fs fc fz ds qos _ =>
+      length rid = 4%nat /\ length wid = 4%nat /\ in_i64 sn /\ in_u32 fs /\ in_u16 fc /\ in_u16 fz /\ in_u32 ds /\
+      Forall wf_param qos
+  | Gap rid wid start gl => length rid = 4%nat /\ length wid = 4%nat /\ in_i64 start /\ wf_snset gl
+  | Heartbeat _ _ rid wid a b c => length rid = 4%nat /\ length wid = 4%nat /\ in_i64 a /\ in_i64 b /\ in_i32 c
+  | HeartbeatFrag rid wid sn lf c => length rid = 4%nat /\ length wid = 4%nat /\ in_i64 sn /\ in_u32 lf /\ in_i32 c
+  | InfoDst p => length p = 12%nat
+  | InfoReply m u _ => m = false /\ Forall wf_loc u /\ len u <= u32_max
+  | InfoSrc a b c => length a = 2%nat /\ length b = 2%nat /\ length c = 12%nat
+  | InfoTs _ s f => in_u32 s /\ in_u32 f
+  | NackFrag rid wid sn st c => length rid = 4%nat /\ length wid = 4%nat /\ in_i64 sn /\ wf_fnset st /\ in_i32 c
+  | Pad => True
+  end.
+
+Definition pcanon (p : psub) : psub :=
+  match p with
+  | Data q d k n rid wid sn qos pl =>
+      Data q d k n rid wid sn (if q then map pad_param qos else []) (if d || k then pl else [])
+  | DataFrag q k n rid wid sn a b c d qos pl =>
+      DataFrag q k n rid wid sn a b c d (if q then map pad_param qos else []) pl
+  | InfoTs i s f => if i then InfoTs true u32_max u32_max else InfoTs false s f
+  | InfoReply m u mu => InfoReply m u (if m then mu else [])
+  | other => other
+  end.
+
+Lemma run_rd : forall A (p : parser A) bs x r, rd p bs x -> fst (run p (bs ++ r)) = Ok x.
+Proof.
+  intros A p bs x r H. specialize (H r). unfold run.
+  destruct (p (bs ++ r)) as [[[a s]|err|y] c]; cbn [fst] in *; inversion H; reflexivity.
+Qed.
+
+(* the flags octet written by SubmessageHeaderWrite::new and the flags read back *)
+Lemma flags0 : forall e, let F := flags_octet e [] in
+  is_le F = e /\ flag F 1 = false /\ flag F 2 = false /\ flag F 3 = false /\ flag F 4 = false.
+Proof. intros []; vm_compute; repeat split. Qed.
+Lemma flags1 : forall e a, let F := flags_octet e [a] in
+  is_le F = e /\ flag F 1 = a /\ flag F 2 = false /\ flag F 3 = false /\ flag F 4 = false.
+Proof. intros [] []; vm_compute; repeat split. Qed.
+Lemma flags2 : forall e a b, let F := flags_octet e [a; b] in
+  is_le F = e /\ flag F 1 = a /\ flag F 2 = b /\ flag F 3 = false /\ flag F 4 = false.
+Proof. intros [] [] []; vm_compute; repeat split. Qed.
+Lemma flags3 : forall e a b c, let F := flags_octet e [a; b; c] in
+  is_le F = e /\ flag F 1 = a /\ flag F 2 = b /\ flag F 3 = c /\ flag F 4 = false.
+Proof. intros [] [] [] []; vm_compute; repeat split. Qed.
+Lemma flags4 : forall e a b c d, let F := flags_octet e [a; b; c; d] in
+  is_le F = e /\ flag F 1 = a /\ flag F 2 = b /\ flag F 3 = c /\ flag F 4 = d.
+Proof. intros [] [] [] [] []; vm_compute; repeat split. Qed.
+Lemma flags_byte : forall e fs, (length fs <= 4)%nat -> 0 <= flags_octet e fs <= 255.
+Proof.
+  intros e fs H. destruct fs as [|a [|b [|c [|d [|? ?]]]]]; cbn [length] in H; try lia;
+    destruct e; repeat match goal with x : bool |- _ => destruct x end; vm_compute; split; discriminate.
+Qed.
+
+Lemma parse_data_fst : forall fl sublen data o2q rid wid sn s1 qos rest,
+  shorter data sublen = false ->
+  fst ((_ <~ read_u16 (is_le fl) ;; o <~ read_u16 (is_le fl) ;; rid <~ read_entity_id ;; wid <~ read_entity_id ;;
+        sn <~ read_sn (is_le fl) ;; pret (o + 4, rid, wid, sn)) data) = Ok ((o2q, rid, wid, sn), s1) ->
+  ((if sublen =? 0 then len data else sublen) <? o2q) = false ->
+  fst (if flag fl 1
+       then read_param_list (is_le fl)
+              (firstn (Z.to_nat ((if sublen =? 0 then len data else sublen) - o2q)) (skipn (Z.to_nat o2q) data))
+       else (Ok ([], firstn (Z.to_nat ((if sublen =? 0 then len data else sublen) - o2q)) (skipn (Z.to_nat o2q) data)), 0))
+    = Ok (qos, rest) ->
+  fst (parse_data fl sublen data) =
+    Ok (Data (flag fl 1) (flag fl 2) (flag fl 3) (flag fl 4) rid wid sn qos (if flag fl 2 || flag fl 3 then rest else [])).
+Proof.
+  intros fl sublen data o2q rid wid sn s1 qos rest Hs Hc He Hq. unfold parse_data. rewrite Hs.
+  match goal with |- context [match ?X with _ => _ end] => destruct X as [r0 c0] end.
+  cbn [fst] in Hc. subst r0. cbv zeta. rewrite He.
+  match goal with |- context [match ?X with _ => _ end] => destruct X as [r1 c1] end.
+  cbn [fst] in Hq. subst r1. reflexivity.
+Qed.
+
+Lemma parse_data_frag_fst : forall fl sublen data o2q rid wid sn fs fc fz ds s1 qos rest,
+  shorter data sublen = false -> shorter data 32 = false ->
+  fst ((_ <~ read_u16 (is_le fl) ;; o <~ read_u16 (is_le fl) ;; rid <~ read_entity_id ;; wid <~ read_entity_id ;;
+        sn <~ read_sn (is_le fl) ;; fs <~ read_u32 (is_le fl) ;; fc <~ read_u16 (is_le fl) ;; fz <~ read_u16 (is_le fl) ;;
+        ds <~ read_u32 (is_le fl) ;; pret (o + 4, rid, wid, sn, fs, fc, fz, ds)) data)
+    = Ok ((o2q, rid, wid, sn, fs, fc, fz, ds), s1) ->
+  ((if sublen =? 0 then len data else sublen) <? o2q) = false ->
+  fst (if flag fl 1
+       then read_param_list (is_le fl)
+              (firstn (Z.to_nat ((if sublen =? 0 then len data else sublen) - o2q)) (skipn (Z.to_nat o2q) data))
+       else (Ok ([], firstn (Z.to_nat ((if sublen =? 0 then len data else sublen) - o2q)) (skipn (Z.to_nat o2q) data)), 0))
+    = Ok (qos, rest) ->
+  fst (parse_data_frag fl sublen data) =
+    Ok (DataFrag (flag fl 1) (flag fl 2) (flag fl 3) rid wid sn fs fc fz ds qos rest).
+Proof.
+  intros fl sublen data o2q rid wid sn fs fc fz ds s1 qos rest Hs H32 Hc He Hq. unfold parse_data_frag. rewrite Hs, H32.
+  match goal with |- context [match ?X with _ => _ end] => destruct X as [r0 c0] end.
+  cbn [fst] in Hc. subst r0. cbv zeta. rewrite He.
+  match goal with |- context [match ?X with _ => _ end] => destruct X as [r1 c1] end.
+  cbn [fst] in Hq. subst r1. reflexivity.
+Qed.
+
+Lemma len_enc_sn : forall e x, len (enc_sn e x) = 8.
+Proof. intros; unfold enc_sn; rewrite len_app, !len_enc_int; reflexivity. Qed.
+
+Lemma shorter_app_false : forall (a b : list Z) n, n <= len a -> shorter (a ++ b) n = false.
+Proof.
+  intros a b n H. rewrite shorter_spec, len_app. pose proof (len_nonneg _ b).
+  destruct (Z.ltb_spec (len a + len b) n); [lia|reflexivity].
+Qed.
+
+Lemma region_exact : forall (hd mid rest : list Z) n,
+  0 <= n -> Z.to_nat n = length hd ->
+  firstn (Z.to_nat (len hd + len mid - n)) (skipn (Z.to_nat n) (hd ++ mid ++ rest)) = mid.
+Proof.
+  intros hd mid rest n Hn H. rewrite H, skipn_app_exact by reflexivity.
+  apply firstn_app_exact. unfold len. lia.
+Qed.
